@@ -419,7 +419,6 @@ Proof.
       destruct (byte_at d 4) as [fb|] eqn:B4; cbn [bind] in Hd; [|discriminate].
       apply byte_at_nth in B4. destruct B4 as [B4 _]. subst fb.
       eapply G; try exact Hd; try reflexivity.
-      rewrite M2. reflexivity.
     + destruct (bytes_eqb (firstn 4 d) boc_magic_idx_crc) eqn:R3; [|discriminate Hd].
       destruct (byte_at d 4) as [fb|] eqn:B4; cbn [bind] in Hd; [|discriminate].
       apply byte_at_nth in B4. destruct B4 as [B4 _]. subst fb.
@@ -492,7 +491,7 @@ Proof.
   intros Hd Hc Hi Hd'.
   destruct (flip_bit_split i d Hi) as (a & b & r & -> & Hl).
   rewrite (flip_bit_app a b r i Hl) in Hd'.
-  pose proof (mask_in i) as He. set (e := mask i) in *. clearbody e.
+  pose proof (mask_in i) as He. remember (mask i) as e eqn:Eme.
   pose proof (lxor_mask_neq b e He) as Hne. set (b' := N.lxor b e) in *.
   apply header_ok_inv in Hd. apply header_ok_inv in Hd'.
   destruct Hd as [Fm Ffix Fsz Fi1 Ftot Fcrc]. destruct Hd' as [Fm' Ffix' Fsz' Fi1' Ftot' Fcrc'].
@@ -500,21 +499,21 @@ Proof.
   destruct (Nat.lt_ge_cases (length a) 4) as [Hp|Hp].
   - (* the flip hits the magic *)
     destruct (pd_firstn_gt a b b' r 4 Hp) as [E4 E4'].
-    rewrite E4' in Fm'. unfold b' in Fm'.
+    rewrite E4' in Fm'. unfold b' in Fm'. rewrite Eme in Fm'.
     rewrite <- (flip_bit_app a b _ i Hl), <- E4 in Fm'.
     assert (Hin : In i (seq 0 32)) by (apply in_seq; lia).
     pose proof (proj1 (forallb_forall _ _) magic_flip_check i Hin) as Hk. cbv beta in Hk.
     apply andb_prop in Hk. destruct Hk as [K1 K2].
     unfold crc_protected in Hc. apply orb_prop in Hc. destruct Hc as [Hc|Hc].
     + apply andb_prop in Hc. destruct Hc as [Hc _]. apply bytes_eqb_eq in Hc.
-      rewrite Hc, Fm' in K1. discriminate.
-    + apply bytes_eqb_eq in Hc. rewrite Hc, Fm' in K2. discriminate.
+      rewrite Hc in Fm'. rewrite Fm' in K1. discriminate.
+    + apply bytes_eqb_eq in Hc. rewrite Hc in Fm'. rewrite Fm' in K2. discriminate.
   - (* the magic is untouched *)
     pose proof (pd_firstn_le a b b' r 4 Hp) as E4.
     rewrite Hc in Ftot.
     destruct (crc_protected (a ++ b' :: r)) eqn:Hc'.
     + (* still CRC-protected: the CRC detects the flip *)
-      specialize (Fcrc eq_refl). specialize (Fcrc' eq_refl).
+      specialize (Fcrc Hc). specialize (Fcrc' eq_refl).
       assert (EL : f_i4 (a ++ b' :: r) = f_i4 (a ++ b :: r)) by lia.
       rewrite EL in Fcrc'. set (L := f_i4 (a ++ b :: r)) in *.
       destruct (Nat.lt_ge_cases (length a) L) as [HL|HL].
